@@ -543,6 +543,7 @@ def _compile_once(case: dict, seed: int, limit: int) -> dict:
     import bqskit
     from vf.loopback import LoopbackCompiler, TaskError, LoopbackDeadlock
     t0 = time.time()
+    c0 = time.process_time()
     spec = case['input']
     eps = case.get('eps', 1e-8)
     rec: dict = {}
@@ -587,6 +588,7 @@ def _compile_once(case: dict, seed: int, limit: int) -> dict:
                 'secs': round(time.time() - t0, 2)}
     rec['status'] = 'ok'
     rec['secs'] = round(time.time() - t0, 2)
+    rec['cpu'] = round(time.process_time() - c0, 2)
     if spec['kind'] == 'list':
         rec['n_results'] = len(res) if isinstance(res, list) else -1
         rec['items'] = []
